@@ -175,10 +175,10 @@ PROPS = {
                 level_note=LEVEL_NOTE),
     'C07': dict(level='proof', module='EscProofs.P.C07',
                 # the last stream lets the credentials refresh fail (provider rebuilt, 5 s of real sleep each) before a scale-up
-                streams=dict(quick=[('scenario', ['-dir', '@ROOT/corpus/C07']), ('awsops', ['-n', 3000]), ('hist', ['-n', 400, '-scans', 10, '-focus', 'up']), ('hist', ['-n', 4, '-scans', 5, '-focus', 'up', '-slow'])],
+                streams=dict(quick=[('scenario', ['-dir', '@ROOT/corpus/C07']), ('awsops', ['-n', 3000]), ('hist', ['-n', 400, '-scans', 10, '-focus', 'up']), ('hist', ['-n', 5, '-scans', 6, '-focus', 'up', '-slow'])],
                              thorough=[('scenario', ['-dir', '@ROOT/corpus/C07']), ('awsops', ['-n', 100000]), ('hist', ['-n', 20000, '-scans', 12, '-focus', 'up']), ('hist', ['-n', 60, '-scans', 6, '-focus', 'up', '-slow'])],
                              search=[('awsops', ['-n', 20000]), ('hist', ['-n', 1500, '-scans', 12, '-focus', 'up']), ('hist', ['-n', 12, '-scans', 6, '-focus', 'up', '-slow'])]),
-                aspects=['hist:untaints', 'hist:resize', 'hist:gets', 'cached-desired'], monitors=['C07'],
+                aspects=['hist:untaints', 'hist:resize', 'hist:gets', 'hist:pre', 'cached-desired'], monitors=['C07'],
                 theorems=['Esc.P.C07_order', 'Esc.P.C07_remainder', 'Esc.P.C07_on_top', 'Esc.untaintLoop_spec', 'Esc.P.tryDelete_desired', 'Esc.orderBy_pairwise'],
                 technique='Lean 4 theorem (untaint loop attempts a newest-first prefix; count/remainder accounting of ScaleUp; exact SetDesiredCapacity value on the cached desired size, which follows accepted terminations) + differential correspondence incl. the provider cache after multi-node deletions + monitors',
                 level_text='C07_order: any tainted node not attempted is not strictly newer than an attempted one (all tie-breaks, all failing writes); C07_remainder: reported untaints <= N, the cloud is asked only if every tainted node was attempted, and then for the remainder N - untainted clamped to the bound, >= 1; '
